@@ -372,6 +372,16 @@ class C08(Driver):
                     sig = ("C08/stale-thread-chan-entry/message-undelivered-while-a-receiver-waits" if tainted(c, q_seq)
                            else "C08/lost-wakeup/message-undelivered-while-a-receiver-waits")
                     V(sig, "message %d on channel %d is undelivered at quiescence; thread(s) %r wait on it" % (mid, c, pend_take[c]))
+        # ---- a giver whose message has been received must be resumed ----
+        if q_seq is not None:
+            for mid, (t, c, shape, seq) in got.items():
+                if mid not in sent or seq > q_seq or c in closed_at:
+                    continue
+                k = [key for key, op in ops.items() if op.get("mid") == mid]
+                if k and k[0] in inv and k[0] not in ret:
+                    sig = ("C08/stale-thread-chan-entry/other-consequence" if tainted(c, q_seq)
+                           else "C08/lost-wakeup/giver-not-resumed-although-its-message-was-received")
+                    V(sig, "message %d on channel %d was received by thread %d but the give of thread %d never returned" % (mid, c, t, k[0][0]))
         # ---- exactly once: after the drain every completed give has been received by somebody ----
         if drained:
             for mid, (t, c, shape, seq) in sent.items():
